@@ -4,7 +4,8 @@ model      : spec/Cfdp.tla with several put requests on the same handler records
              cancellations by either user hit the earlier transactions, a later transaction the environment leaves alone ends
              like one on fresh handlers (invariant LastTxnGood), and C01 holds throughout
 spec->code : (a) the multi-transaction schedules TLC enumerates are executed on ONE pair of real handler objects;
-             (b) differential driver: a transaction T after a random history (completed, cancelled by either user, faulted to
+             (b) differential drivers: a transaction after sibling handlers with other header widths ran in the same
+             process vs the same transaction in a pristine interpreter; a transaction T after a random history (completed, cancelled by either user, faulted to
              the limits, cut off and abandoned, reset mid-way; different modes / closure per transaction), optionally next to
              busy sibling handler instances, and the same T on freshly constructed handlers
 code->spec : conformance of every execution (the transducers carry all state a handler keeps across transactions) + monitor C11:
@@ -27,6 +28,7 @@ def run(tier: str, keep: bool = False) -> int:
     r.model("three", three, K=1, faults=["drop"], cancels=["S"], invariants=["C01", "LastTxnGood"], timeout=1500)
     r.schedules("history", fam, ["C01", "C10"], K=1, faults=["drop", "dup"], cancels=["S", "D"], limit=500 if q else 5000, maxhist=200)
     r.driver("isolation", 400 if q else 6000, ["C11"])
+    r.driver("isolation_process", 60 if q else 600, ["C11"])
     r.judge()
     return r.finish(assumptions=["the fresh run gets the provider value and the destination file the reused run had when T started, so "
                                  "that sequence numbers and files are comparable without renaming",
